@@ -39,6 +39,11 @@ RULE = ("cases: C01 slices plus seeded cases up to length 12 (exact domain), ndi
 
 
 def run(ctx):
+    # band symmetry (what makes DTW symmetric for unequal lengths) for ALL sizes: LayoutProofs.tla BandSymmetric;
+    # MC_DTWCore's LayoutBandAgrees ties Layout.tla's band to the one of DTWCore on every instance of the scope
+    from harness import tlaps
+    ctx.extra["unbounded_proofs"] = tlaps.layout_proofs()
+    ctx.log("tlapm LayoutProofs.tla: %s" % ctx.extra["unbounded_proofs"])
     return run_records_family(ctx, cases(ctx), "run_c10", "laws",
                               mc_cfgs=["MC_DTWCore_c10q.cfg"] if ctx.quick else ["MC_DTWCore_c10q.cfg", "MC_DTWCore_c10t.cfg"],
                               rule=RULE)
